@@ -59,6 +59,13 @@ def candidate_values(rng, T, f, thorough):
         for n in lens:
             s = "".join(rng.choice("abcXYZ 09é𝄞") for _ in range(n))
             out.append((s, "valid" if (lim is None or n <= lim) else "invalid"))
+        if lim:
+            # too long only through blanks at either end: still longer than the device limit (the limit counts characters)
+            core_ = "".join(rng.choice("abcXYZ09") for _ in range(max(1, lim - 2)))
+            for s in (core_ + "   ", "   " + core_, " " + core_ + "  ", core_ + "\t\t\t", " " * (lim + 1)):
+                out.append((s, "invalid" if len(s) > lim else "valid"))
+            # and exactly at the limit with blanks inside / at the ends: valid
+            out.append(((" " + core_ + " ")[:lim].ljust(lim), "valid"))
         for v in (5, 1.5, None, True):
             out.append((v, "open"))
     if numeric:
